@@ -233,3 +233,12 @@ Theorem unmatched_reply_ignored : forall announce own target resp nodes,
   dht_find_node_reply announce false own target resp nodes = FnIgnored.
 Proof. exact ProofsDht.unmatched_reply_ignored. Qed.
 Print Assumptions unmatched_reply_ignored.
+
+Theorem compact_nodes_exact : forall buf, parse_compact_nodes buf = POk (spec_nodes (S (length buf)) buf).
+Proof. exact ProofsDht.compact_nodes_exact. Qed.
+Print Assumptions compact_nodes_exact.
+
+Theorem find_node_reply_never_faults : forall announce matched own target resp nodes,
+  dht_find_node_reply announce matched own target resp nodes <> FnFault.
+Proof. exact ProofsDht.find_node_reply_never_faults. Qed.
+Print Assumptions find_node_reply_never_faults.
